@@ -29,6 +29,7 @@ RULE = (
     ">= 1 child with >= 1 value and a non-default attribute, or a boundary payload reached the registry; distinct = distinct case JSON."
     ' Round 5: load via own path or explicit argument; earlier saves by the same object, file removed in between, repeated saves; an `overlap` kind (second save while the first is in flight, registry grown meanwhile) on the virtual loop.'
     ' Round 8: comment-, template- and JSON-looking texts; hash-equal integer changes between two saves.'
+    ' Round 9: `reload_after_use`; `build=outside|two-runs` (objects created before / reused across event loops).'
 )
 ASSUMPTIONS = [
     "real files in a scratch directory (tmpfs when available), aiofiles and its thread pool unmocked",
